@@ -30,6 +30,16 @@ def run_shard(spec, acc):
 
 
 def replay(case, acc):
+    if 'hand_driven' in case:
+        from qsmon import core
+        ops = [tuple(o) for o in case['hand_driven']]
+        a = pairwl.run_broker_script(ops)
+        for _ in range(5):
+            if pairwl.run_broker_script(ops) != a:
+                acc.violation(core.Violation('C18', 'hand-driven/history', 'the same script gives different accounts when run again', {}), case)
+                return
+        acc.count('C18:hand_driven_runs', 5)
+        return
     pairwl.run_c18_case(case, acc)
 
 
